@@ -119,7 +119,7 @@ func TestCheck(t *testing.T) {
 	if run.Thorough() {
 		for _, ops := range [][]prog.Op{
 			{wtx([]uint32{1, 16384, 16386}, 16386, 0, "commit"), {Kind: "ckpt", Mode: "TRUNCATE"}, wtx([]uint32{2, 16386}, 0, 0, "commit"), wtx([]uint32{1}, 16384, 0, "commit"), {Kind: "recover"}},
-			{wtx([]uint32{1, 16384, 16386, 16387}, 16387, 1, "commit"), wtx([]uint32{1}, 16380, 0, "commit"), {Kind: "ckpt", Mode: "PASSIVE"}, wtx([]uint32{1, 16386}, 16386, 0, "commit")},
+			{wtx([]uint32{1, 16384, 16386, 16387}, 16387, 1, "commit"), wtx([]uint32{1}, 16380, 0, "commit"), {Kind: "ckpt", Mode: "PASSIVE"}, wtx([]uint32{1, 16381, 16382, 16383, 16384, 16386}, 16386, 0, "commit")},
 			{wtx([]uint32{16384, 16386}, 16386, 0, "rollback"), wtx([]uint32{1, 16384}, 16384, 0, "commit"), {Kind: "ckpt", Mode: "RESTART"}, wtx([]uint32{1, 16386}, 16386, 0, "commit")},
 		} {
 			cases = append(cases, prog.Case{PageSize: 65536, Start: 16383, StartWAL: true, Ops: ops})
